@@ -209,10 +209,14 @@ pub fn main(a: &Args) {
     if let Some(only) = a.kv.get("index") {
         case(&mut rep, seed, only.parse().unwrap(), &mut table);
     } else {
-        let mut i = shard;
-        while i < count {
+        // every other process set runs the same cases in the opposite order: whatever a writer or reader
+        // keeps between calls (caches, thread-locals, interned state) then differs at each case
+        let mut idx: Vec<u64> = (0..count).filter(|i| i % nshards == shard).collect();
+        if a.flag("reverse") {
+            idx.reverse();
+        }
+        for i in idx {
             case(&mut rep, seed, i, &mut table);
-            i += nshards;
         }
     }
     rep.extra.insert("hashes".into(), json!(table));
